@@ -9,6 +9,8 @@ import (
 
 	"github.com/emirpasic/gods/v2/containers"
 	"github.com/emirpasic/gods/v2/lists/arraylist"
+	"github.com/emirpasic/gods/v2/sets/treeset"
+	"github.com/emirpasic/gods/v2/trees/binaryheap"
 )
 
 // C16: returned slices are snapshots and argument slices are copied. The fault of this world is the
@@ -75,6 +77,43 @@ func (s *listSubj[T]) SortedProbe(o *Oracle) {
 func (s *setSubj[T]) SortedProbe(o *Oracle) {
 	sortedProbe[T](o, s.s, s.d, s.ObsJSON)
 	orderedProbe[T](o, s.s, s.ObsJSON)
+	if s.cfg.Kind == "treeset" {
+		siblingSortProbe[T](o, s.d, "TreeSet", s.s.Values(), func(c func(a, b T) int, vs []T) containers.Container[T] { return treeset.NewWith[T](c, vs...) })
+	}
+}
+
+// dirOf makes comparators that order by c, forwards or backwards. Every closure it returns shares one code
+// pointer whatever it captured: "the same function" by reflect's Pointer() is not "the same comparator".
+//
+//go:noinline
+func dirOf[T any](c func(a, b T) int, backwards bool) func(a, b T) int {
+	return func(a, b T) int {
+		if backwards {
+			return c(b, a)
+		}
+		return c(a, b)
+	}
+}
+
+// siblingSortProbe: a container ordered by one closure of a factory is sorted with another closure of the same
+// factory that orders the other way: GetSortedValuesFunc must follow the comparator it is given.
+func siblingSortProbe[T comparable](o *Oracle, d *Dom[T], name string, vals []T, mk func(func(a, b T) int, []T) containers.Container[T]) {
+	if len(vals) < 2 || o.Failed() {
+		return
+	}
+	c := mk(dirOf(d.Cmp, false), vals)
+	back := dirOf(d.Cmp, true)
+	got := containers.GetSortedValuesFunc[T](c, back)
+	if !isPermutation(got, c.Values()) {
+		o.Fail("C16", "sorted-content", "GetSortedValuesFunc over a %s returned %s, contents are %s", name, joinS(got, d.Str), joinS(c.Values(), d.Str))
+		return
+	}
+	for i := 1; i < len(got); i++ {
+		if back(got[i-1], got[i]) > 0 {
+			o.Fail("C16", "sorted-order", "GetSortedValuesFunc over a %s ordered by one comparator, called with a comparator that orders the other way (another closure of the same function), returned %s: not sorted by the comparator it was given", name, joinS(got, d.Str))
+			return
+		}
+	}
 }
 func (s *sqSubj[T]) SortedProbe(o *Oracle) {
 	sortedProbe[T](o, s.c, s.d, s.ObsJSON)
@@ -83,6 +122,11 @@ func (s *sqSubj[T]) SortedProbe(o *Oracle) {
 func (s *heapSubj[T]) SortedProbe(o *Oracle) {
 	sortedProbe[T](o, s.c, s.d, s.ObsJSON)
 	orderedProbe[T](o, s.c, s.ObsJSON)
+	siblingSortProbe[T](o, s.d, "BinaryHeap", s.c.Values(), func(c func(a, b T) int, vs []T) containers.Container[T] {
+		h := binaryheap.NewWith[T](c)
+		h.Push(vs...)
+		return h
+	})
 }
 func (s *kvSubj[K]) SortedProbe(o *Oracle) {
 	sortedProbeOrdered[string](o, s.m, s.ObsJSON)
